@@ -36,8 +36,8 @@ void run(const char* type) {
     // fmax / fmin: signalling NaN operands are outside the compared domain (see C12)
     fdrive_binary<V, T>("C16", type, "fmax", pairs, [](V a, V b) { return avel::to_array(avel::fmax(a, b)); }, [](T a, T b, T& o) { if (is_snan_bits(a) || is_snan_bits(b)) return false; o = avel::fmax(a, b); return true; }, veq);
     fdrive_binary<V, T>("C16", type, "fmin", pairs, [](V a, V b) { return avel::to_array(avel::fmin(a, b)); }, [](T a, T b, T& o) { if (is_snan_bits(a) || is_snan_bits(b)) return false; o = avel::fmin(a, b); return true; }, veq);
-    // fdim: NaN operands / equal infinities outside the compared domain (as in C12)
-    fdrive_binary<V, T>("C16", type, "fdim", pairs, [](V a, V b) { return avel::to_array(avel::fdim(a, b)); }, [](T a, T b, T& o) { if (is_nan_bits(a) || is_nan_bits(b) || (std::isinf(a) && a == b)) return false; o = avel::fdim(a, b); return true; }, veq);
+    // fdim: NaN operands are outside the compared domain; equal infinities are compared (scalar vs lane only - no <cmath> oracle here)
+    fdrive_binary<V, T>("C16", type, "fdim", pairs, [](V a, V b) { return avel::to_array(avel::fdim(a, b)); }, [](T a, T b, T& o) { if (is_nan_bits(a) || is_nan_bits(b)) return false; o = avel::fdim(a, b); return true; }, veq);
     // min / max: non-NaN inputs only
     fdrive_binary<V, T>("C16", type, "min", pairs, [](V a, V b) { return avel::to_array(avel::min(a, b)); }, [nonan](T a, T b, T& o) { if (!nonan(a, b)) return false; o = avel::min(a, b); return true; }, veq);
     fdrive_binary<V, T>("C16", type, "max", pairs, [](V a, V b) { return avel::to_array(avel::max(a, b)); }, [nonan](T a, T b, T& o) { if (!nonan(a, b)) return false; o = avel::max(a, b); return true; }, veq);
